@@ -62,24 +62,18 @@ func (q *IndexNotificationQueue) Run() {
 			return
 		case <-gc.C:
 			iter.Consume(q.items.Values(), func(h *heap.Heap[*item]) {
-				l := h.Len()
-				for i := 0; i < l; i++ {
-					elem := h.Slice[i]
-					if elem.ctx.Err() != nil {
-						// Reorder
-						elem.revision = 0
-						elem.waitCh <- elem.ctx.Err()
+				// Answer every waiter whose context has ended and keep the rest, then restore the heap order.
+				// Waiters are removed exactly once, wherever they sit in the heap and whatever their revision.
+				kept := h.Slice[:0]
+				for _, elem := range h.Slice {
+					if err := elem.ctx.Err(); err != nil {
+						elem.waitCh <- err
+						continue
 					}
+					kept = append(kept, elem)
 				}
-				h.Fix(0)
-				for i := 0; i < l; i++ {
-					elem := h.Peek()
-					if elem.revision == 0 {
-						h.Pop()
-					} else {
-						break
-					}
-				}
+				clear(h.Slice[len(kept):])
+				*h = *heap.New(h.Less, kept...)
 			})
 		case it := <-q.add:
 			h, _ := q.items.Load(it.table)
